@@ -101,15 +101,22 @@ DistinctPost(f, cols, nullEq, o, rid) ==
 \* grouper = [err, f, cols, groups] with groups a sequence of ascending row-position sequences
 ErrGrouper == [err |-> TRUE, f |-> ErrFrame, cols |-> <<>>, groups |-> <<>>]
 
-\* positions of the rows of group observation go inside f
-GroupPositions(f, go, rid) ==
-  IF RidUsable(f, rid) THEN [j \in 1..go.len |-> PosOf(f, go, RidIx(f, rid), j)]
-  ELSE \* small frames: the first position not yet used by an equal earlier row of the same group
-       [j \in 1..go.len |->
-          LET row == ORow(go, j)
-              nth == Cardinality({i \in 1..j : ORow(go, i) = row})
-              cands == SelectSeq(Iota(f.n), LAMBDA r : Row(f, r) = row)
-          IN IF nth <= Len(cands) THEN cands[nth] ELSE 0]
+\* positions inside f of the rows of every observed group: <<positions of group 1, ...>> (0 = no such row)
+\* With a usable numbering column the position is read off the row; otherwise (small frames) each
+\* observed row takes the first not yet used position holding an identical row: identical rows have
+\* identical keys, so they can only be told apart by position, which no observation shows.
+GroupPositionsAll(f, groups, rid) ==
+  IF RidUsable(f, rid)
+  THEN [g \in 1..Len(groups) |-> [j \in 1..groups[g].len |-> PosOf(f, groups[g], RidIx(f, rid), j)]]
+  ELSE FoldLeft(LAMBDA acc, go :
+         LET pg == FoldLeft(LAMBDA a2, j :
+                      LET row == ORow(go, j)
+                          cands == SelectSeq(Iota(f.n), LAMBDA r : r \notin a2.used /\ Row(f, r) = row)
+                      IN IF Len(cands) = 0 THEN [used |-> a2.used, p |-> Append(a2.p, 0)]
+                         ELSE [used |-> a2.used \cup {cands[1]}, p |-> Append(a2.p, cands[1])],
+                    [used |-> acc.used, p |-> <<>>], Iota(Max2(go.len, 0)))
+         IN [used |-> pg.used, P |-> Append(acc.P, pg.p)],
+       [used |-> {}, P |-> <<>>], groups).P
 
 GroupPost(f, cols, nullEq, gerr, groups, rid) ==
   IF f.err THEN gerr = 1
@@ -117,7 +124,7 @@ GroupPost(f, cols, nullEq, gerr, groups, rid) ==
   ELSE IF gerr = 1 THEN FALSE
   ELSE IF f.n = 0 THEN Len(groups) = 0
   ELSE LET kc == [i \in 1..Len(cols) |-> ColIx(f, cols[i])]
-           P == [g \in 1..Len(groups) |-> GroupPositions(f, groups[g], rid)]
+           P == GroupPositionsAll(f, groups, rid)
            all == UNION {{P[g][j] : j \in 1..Len(P[g])} : g \in 1..Len(groups)}
            gkey == [g \in 1..Len(groups) |-> FKey(f, kc, P[g][1])]
            plain == {g \in 1..Len(groups) : nullEq \/ ~HasNullKey(gkey[g])}
@@ -133,7 +140,7 @@ GroupPost(f, cols, nullEq, gerr, groups, rid) ==
 
 \* the grouper the specification keeps after a successful GroupBy
 MkGrouper(f, cols, groups, rid) ==
-  [err |-> FALSE, f |-> f, cols |-> cols, groups |-> [g \in 1..Len(groups) |-> GroupPositions(f, groups[g], rid)]]
+  [err |-> FALSE, f |-> f, cols |-> cols, groups |-> GroupPositionsAll(f, groups, rid)]
 
 QFramesSem(g) == [k \in 1..Len(g.groups) |-> TakeRows(g.f, g.groups[k])]
 
